@@ -20,7 +20,8 @@ from vf.core import sig_of  # noqa: E402
 
 ID = "C15"
 LEVEL = "exploration"
-RULE = ("an sqlite3 in-memory table (0-12 rows, INTEGER and TEXT columns with NULLs, '', quotes, % and _, SQL "
+RULE = ("[later additions: a TIMESTAMP column filtered with datetime values; in mode 'all' another request runs on the same connection after the first row was taken; NULL operands of ordering comparisons; backslashes in LIKE patterns] "
+        "an sqlite3 in-memory table (0-12 rows, INTEGER and TEXT columns with NULLs, '', quotes, % and _, SQL "
         "fragments) is queried through SqlMethod.list / all / one / one_or_none with 0-4 generated conditions: "
         "comparisons, = / != with None, list or tuple, IN / NOT IN with list / tuple / set incl. empty and NULL "
         "members, IS [NOT] NULL, [NOT] LIKE, OR groups (also empty, single-operand, nested, with keyword operands, with static operands that contain a bare OR), static "
